@@ -30,6 +30,7 @@ type Engine struct {
 
 func NewEngine(p *load.Prog) *Engine {
 	sum := BuildSummaries(p)
+	detectSubSequences(p)
 	return &Engine{Prog: p, Canon: &Canon{Prog: p, Sum: sum}, Sum: sum, fns: map[ast.Node]*Fn{}, NoInline: os.Getenv("ASV_NOINLINE") == "1"}
 }
 
@@ -131,6 +132,33 @@ func (e *Engine) prepare(info *types.Info, name string, node ast.Node, body *ast
 	f.expand(pkg)
 	// variables assigned inside nested literals, and address-taken variables
 	var inLit int
+	// &x handed straight to a pure in-repo function with basic results is only read through: x keeps being a
+	// variable nobody else can reach
+	benign := map[*ast.UnaryExpr]bool{}
+	for _, bd := range f.Bodies() {
+		ast.Inspect(bd, func(n ast.Node) bool {
+			call, ok := n.(*ast.CallExpr)
+			if !ok {
+				return true
+			}
+			fnc := StaticCallee(info, call)
+			if fnc == nil || fnc.Pkg() == nil || !load.IsRepo(fnc.Pkg().Path()) || e.Sum == nil || !e.Sum.Pure[fnc.Origin()] {
+				return true
+			}
+			res := fnc.Type().(*types.Signature).Results()
+			for i := 0; i < res.Len(); i++ {
+				if _, isBasic := res.At(i).Type().Underlying().(*types.Basic); !isBasic {
+					return true
+				}
+			}
+			for _, a := range call.Args {
+				if u, ok := ast.Unparen(a).(*ast.UnaryExpr); ok && u.Op == token.AND {
+					benign[u] = true
+				}
+			}
+			return true
+		})
+	}
 	var walk func(n ast.Node) bool
 	walk = func(n ast.Node) bool {
 		switch x := n.(type) {
@@ -160,7 +188,7 @@ func (e *Engine) prepare(info *types.Info, name string, node ast.Node, body *ast
 				}
 			}
 		case *ast.UnaryExpr:
-			if x.Op == token.AND {
+			if x.Op == token.AND && !benign[x] {
 				if id, ok := ast.Unparen(x.X).(*ast.Ident); ok {
 					if obj := info.ObjectOf(id); obj != nil {
 						f.addrTaken[obj] = true
@@ -399,7 +427,7 @@ func (f *Fn) livenessRest(use map[int32]map[types.Object]bool) {
 // dropDead removes facts that mention a local variable which is dead at the entry of b.
 func (a *Analysis) dropDead(b *cfg.Block, st State) State {
 	f := a.Fn
-	if !st.Reachable() || a.KeepDead || f.KeepDead {
+	if !st.Reachable() || a.KeepDead || a.fnKeepDead {
 		return st
 	}
 	li := f.liveIn[b.Index]
@@ -651,12 +679,14 @@ type Analysis struct {
 	cur []*InlSite
 	// self-referential assignment being evaluated disjunct by disjunct, and the old value's equal term
 	inSelfSplit bool
+	postFacts   map[ast.Node]*Formula // the function's PostFacts and KeepDead when the analysis was made (queries re-step lazily)
+	fnKeepDead  bool
 	selfPartner *Term
 }
 
 // Analyze runs from the function entry with an assumption (True for none).
 func (f *Fn) Analyze(assume *Formula) *Analysis {
-	a := &Analysis{Fn: f, In: map[int32]State{}, out: map[int32][]State{}, visits: map[int32]int{}}
+	a := &Analysis{Fn: f, postFacts: f.PostFacts, fnKeepDead: f.KeepDead, In: map[int32]State{}, out: map[int32][]State{}, visits: map[int32]int{}}
 	init := TrueState()
 	if assume != nil {
 		init = init.Assume(assume)
@@ -668,7 +698,7 @@ func (f *Fn) Analyze(assume *Formula) *Analysis {
 // From runs forward from just before the CFG node n with the given state.
 func (f *Fn) From(n ast.Node, st State) *Analysis {
 	b, idx, _, ok := f.locateStart(n)
-	a := &Analysis{Fn: f, In: map[int32]State{}, out: map[int32][]State{}, visits: map[int32]int{}}
+	a := &Analysis{Fn: f, postFacts: f.PostFacts, fnKeepDead: f.KeepDead, In: map[int32]State{}, out: map[int32][]State{}, visits: map[int32]int{}}
 	if !ok {
 		return a
 	}
@@ -680,7 +710,7 @@ func (f *Fn) From(n ast.Node, st State) *Analysis {
 // does not continue past the CFG nodes containing any of the stop nodes.
 func (f *Fn) FromAfterUntil(n ast.Node, st State, stops ...ast.Node) *Analysis {
 	b, idx, _, ok := f.Locate(n)
-	a := &Analysis{Fn: f, In: map[int32]State{}, out: map[int32][]State{}, visits: map[int32]int{}, StopAt: map[ast.Node]bool{}}
+	a := &Analysis{Fn: f, postFacts: f.PostFacts, fnKeepDead: f.KeepDead, In: map[int32]State{}, out: map[int32][]State{}, visits: map[int32]int{}, StopAt: map[ast.Node]bool{}}
 	if !ok {
 		return a
 	}
@@ -697,7 +727,7 @@ func (f *Fn) FromAfterUntil(n ast.Node, st State, stops ...ast.Node) *Analysis {
 // not continue past the CFG nodes containing any of the stop nodes.
 func (f *Fn) FromUntil(n ast.Node, st State, stops ...ast.Node) *Analysis {
 	b, idx, _, ok := f.locateStart(n)
-	a := &Analysis{Fn: f, In: map[int32]State{}, out: map[int32][]State{}, visits: map[int32]int{}, StopAt: map[ast.Node]bool{}}
+	a := &Analysis{Fn: f, postFacts: f.PostFacts, fnKeepDead: f.KeepDead, In: map[int32]State{}, out: map[int32][]State{}, visits: map[int32]int{}, StopAt: map[ast.Node]bool{}}
 	if !ok {
 		return a
 	}
@@ -712,7 +742,7 @@ func (f *Fn) FromUntil(n ast.Node, st State, stops ...ast.Node) *Analysis {
 
 // FromBlock runs forward from the entry of block b with the given state (e.g. the state on one outgoing edge of a test).
 func (f *Fn) FromBlock(b *cfg.Block, st State) *Analysis {
-	a := &Analysis{Fn: f, In: map[int32]State{}, out: map[int32][]State{}, visits: map[int32]int{}}
+	a := &Analysis{Fn: f, postFacts: f.PostFacts, fnKeepDead: f.KeepDead, In: map[int32]State{}, out: map[int32][]State{}, visits: map[int32]int{}}
 	a.run(b, 0, st)
 	return a
 }
@@ -767,7 +797,7 @@ func (a *Analysis) BlockReached(b *cfg.Block) bool {
 // FromAfter runs forward from just after the CFG node containing n.
 func (f *Fn) FromAfter(n ast.Node, st State) *Analysis {
 	b, idx, _, ok := f.Locate(n)
-	a := &Analysis{Fn: f, In: map[int32]State{}, out: map[int32][]State{}, visits: map[int32]int{}}
+	a := &Analysis{Fn: f, postFacts: f.PostFacts, fnKeepDead: f.KeepDead, In: map[int32]State{}, out: map[int32][]State{}, visits: map[int32]int{}}
 	if !ok {
 		return a
 	}
@@ -1210,6 +1240,27 @@ func (a *Analysis) StateAtExpr(e ast.Expr) State {
 	return a.descend(st, root, e)
 }
 
+// StatesAtExpr is StateAtExpr for every occurrence of e: an expression inside a helper expanded at
+// several call sites is evaluated once per site.
+func (a *Analysis) StatesAtExpr(e ast.Expr) []State {
+	_, _, root, ok := a.Fn.Locate(e)
+	if !ok {
+		return nil
+	}
+	refs := a.Fn.whereAll[root]
+	if len(refs) <= 1 {
+		return []State{a.StateAtExpr(e)}
+	}
+	var out []State
+	for _, r := range refs {
+		st := a.stateAt(r.b, r.idx)
+		st = a.enter(st, root)
+		out = append(out, a.descend(st, root, e))
+		a.cur = nil
+	}
+	return out
+}
+
 func contains(outer, inner ast.Node) bool {
 	return outer.Pos() <= inner.Pos() && inner.End() <= outer.End()
 }
@@ -1422,8 +1473,30 @@ func (a *Analysis) step(st State, n ast.Node) State {
 				st = a.assign(st, l, s.ResID[k], x.Tok)
 			}
 		} else {
+			// a, b := g(...) with g a pure in-repo function: each variable is that result of the call
+			var ct *Term
+			if call, isCall := ast.Unparen(x.Rhs[0]).(*ast.CallExpr); isCall && len(x.Rhs) == 1 && len(x.Lhs) > 1 && !a.Fn.inlCall[call] {
+				if g := StaticCallee(a.Fn.Info, call); g != nil && g.Pkg() != nil && load.IsRepo(g.Pkg().Path()) {
+					if t := a.term(call); t != nil && t.K == 'k' && t.Fn != nil && a.Fn.Eng.Canon.PureTerm(t) {
+						ct = t
+					}
+				}
+			}
 			for _, l := range x.Lhs {
 				st = a.killLHS(st, l)
+			}
+			if ct != nil && st.Reachable() {
+				for k, l := range x.Lhs {
+					id, isID := ast.Unparen(l).(*ast.Ident)
+					if !isID || id.Name == "_" {
+						continue
+					}
+					obj := a.Fn.Info.ObjectOf(id)
+					if obj == nil || a.Fn.volatile[obj] || ct.Mentions(func(s *Term) bool { return s.K == 'v' && s.Obj == obj }) {
+						continue
+					}
+					st = st.Assume(FEq(Var(obj), ProjOf(ct, k, obj.Type())))
+				}
 			}
 			// v, ok := x.(T) / m[k] / <-ch : nothing is learned
 		}
@@ -1455,7 +1528,7 @@ func (a *Analysis) step(st State, n ast.Node) State {
 	default:
 		st = a.callKills(st, n)
 	}
-	if pf, ok := a.Fn.PostFacts[n]; ok && st.Reachable() {
+	if pf, ok := a.postFacts[n]; ok && st.Reachable() {
 		st = st.Assume(pf)
 	}
 	return a.clean(st)
@@ -1627,6 +1700,13 @@ func (a *Analysis) killLHS(st State, lhs ast.Expr) State {
 		}
 		return st
 	}
+	// a store into a field of a local struct value (no pointer on the way, address never taken) changes that
+	// variable's own storage only: facts about other objects with a field of the same name stay
+	if root := a.localValueRoot(lhs); root != nil {
+		return st.Kill(func(at *Atom) bool {
+			return at.Mentions(func(t *Term) bool { return t.K == 'v' && t.Obj == root })
+		})
+	}
 	w := map[string]bool{}
 	WriteTargets(f.Info, lhs, w)
 	lt := a.term(lhs)
@@ -1636,6 +1716,55 @@ func (a *Analysis) killLHS(st State, lhs ast.Expr) State {
 		}
 		return f.Eng.Sum.AtomKilledBy(at, w, f.addrTaken)
 	})
+}
+
+// localValueRoot: lhs is x.f.g (or x.arr[i].f) with x a local variable of struct or array type whose address is
+// never taken and no pointer, slice or map is passed on the way from x to the stored field.
+func (a *Analysis) localValueRoot(lhs ast.Expr) types.Object {
+	f := a.Fn
+	e := ast.Unparen(lhs)
+	steps := 0
+	for {
+		switch x := e.(type) {
+		case *ast.SelectorExpr:
+			sel, ok := f.Info.Selections[x]
+			if !ok || sel.Kind() != types.FieldVal || sel.Indirect() {
+				return nil
+			}
+			e = ast.Unparen(x.X)
+			steps++
+			continue
+		case *ast.IndexExpr:
+			t := f.Info.TypeOf(x.X)
+			if t == nil {
+				return nil
+			}
+			if _, isArr := t.Underlying().(*types.Array); !isArr {
+				return nil
+			}
+			e = ast.Unparen(x.X)
+			steps++
+			continue
+		case *ast.Ident:
+			if steps == 0 {
+				return nil
+			}
+			v, ok := f.Info.ObjectOf(x).(*types.Var)
+			if !ok || v.IsField() || v.Pkg() == nil || v.Parent() == v.Pkg().Scope() {
+				return nil
+			}
+			switch v.Type().Underlying().(type) {
+			case *types.Struct, *types.Array:
+			default:
+				return nil
+			}
+			if f.addrTaken[v] || f.volatile[v] {
+				return nil
+			}
+			return v
+		}
+		return nil
+	}
 }
 
 func (a *Analysis) assign(st State, lhs, rhs ast.Expr, tok token.Token) State {
@@ -1689,7 +1818,7 @@ func (a *Analysis) assign(st State, lhs, rhs ast.Expr, tok token.Token) State {
 	// x = x op c for integers keeps one-sided bounds
 	if isIdent && obj != nil && rt != nil && isIntegerType(lt) {
 		if b, off, ok := linear(rt); ok && b != nil && b.K == 'v' && b.Obj == obj && off != 0 {
-			return a.shiftVar(st, obj, off > 0)
+			return a.shiftVar(st, obj, off > 0, off == 1 || off == -1)
 		}
 	}
 	st = a.killLHS(st, lhs)
@@ -1867,7 +1996,7 @@ func formulaMentions(f *Formula, key string) bool {
 
 // shiftVar handles v++ / v += c (up) and v-- / v -= c (down): bounds on the
 // safe side survive, everything else about v is dropped.
-func (a *Analysis) shiftVar(st State, obj types.Object, up bool) State {
+func (a *Analysis) shiftVar(st State, obj types.Object, up bool, unit bool) State {
 	vkey := Var(obj).key
 	mentions := func(t *Term) bool { return t.Mentions(func(s *Term) bool { return s.K == 'v' && s.Obj == obj }) }
 	// v == t: what bounds t on the surviving side bounds v as well (then it survives the shift)
@@ -1965,6 +2094,15 @@ func (a *Analysis) shiftVar(st State, obj types.Object, up bool) State {
 			if lower == up {
 				return &l
 			}
+			// a step of one turns a strict bound on the other side into a weak one: v < t, v++ gives v <= t
+			if unit && !l.Neg {
+				if up && lIs {
+					return &Lit{A: Lt(other, Var(obj)), Neg: true}
+				}
+				if !up && rIs {
+					return &Lit{A: Lt(Var(obj), other), Neg: true}
+				}
+			}
 			return nil
 		}
 		return nil
@@ -1978,7 +2116,7 @@ func (a *Analysis) incdec(st State, x *ast.IncDecStmt) State {
 			if f.volatile[obj] {
 				return a.killVar(st, obj)
 			}
-			return a.shiftVar(st, obj, x.Tok == token.INC)
+			return a.shiftVar(st, obj, x.Tok == token.INC, true)
 		}
 	}
 	return a.killLHS(st, x.X)
